@@ -19,6 +19,7 @@ import "verif/vfw"
 //   - countingItem: a caller-defined Item that counts body serialisations;
 //   - replay cases carry a "part" field: partAlias ignores every part it does not own,
 //     so use e.g. {"part":"sched", ...} and handle c.Replay here.
+//
 // The check's registry entry (check.json) then needs "engine": "e3" (or "instr": true).
 // ============================================================================
 func partSched(c *vfw.Ctx) {
